@@ -1105,6 +1105,9 @@ pub fn run_net(prog: &NetProgram, opts: &RunOpts) -> NetResult {
         // des's own module blocks (their tasks / closures own ledger tokens)
         for (bi, kind) in prog.blocks.iter().enumerate().take(8) {
             use des::net::blocks::{AsyncFn, HandlerFn};
+            if *kind >= 5 {
+                continue; // built below
+            }
             let name = format!("blk{bi}");
             with_ctx(|c| c.building = 254);
             let gen_ok = |mut rx: tokio::sync::mpsc::Receiver<Message>| {
@@ -1138,6 +1141,33 @@ pub fn run_net(prog: &NetProgram, opts: &RunOpts) -> NetResult {
                     }));
                 }
                 _ => {}
+            }
+        }
+        // block kind 7: a joined AsyncFn whose handler, on its first message, asks for a shutdown-and-restart of its node and
+        // then fails (AsyncFn::failable turns the error into a panic of the handler task)
+        for (bi, kind) in prog.blocks.iter().enumerate().take(8) {
+            if *kind != 7 {
+                continue;
+            }
+            use des::net::blocks::AsyncFn;
+            let name = format!("blk{bi}");
+            sim.node(
+                name.as_str(),
+                AsyncFn::failable(move |mut rx: tokio::sync::mpsc::Receiver<Message>| async move {
+                    if let Some(m) = rx.recv().await {
+                        drop(m);
+                        current().shutdow_and_restart_in(Duration::from_millis(100));
+                        return Err(std::io::Error::new(std::io::ErrorKind::Other, "scripted failure of the block's handler"));
+                    }
+                    Ok::<(), std::io::Error>(())
+                })
+                .require_join(),
+            );
+            let gin = sim.gate(name.as_str(), "in");
+            if let Some(g0) = flat.first().and_then(|f| f.first()).and_then(|(gname, _, pos)| refs[0].as_ref().and_then(|r| r.gate(gname, *pos))) {
+                if g0.kind() == GateKind::Standalone {
+                    g0.connect(gin, None);
+                }
             }
         }
         // block kind 5 lives in its own loop: it owns no ledger token
